@@ -959,9 +959,8 @@ def c06_g(ctx):
         cs = ctx.calls(m, 'self.array.{}()'.format(name))
         ok = len(cs) == 1
         if ok:
-            gs = ctx.guards(m, cs[0])
-            ok = all(pol and match(t, pattern("hasattr(self.array, '{}')".format(name))) is not None
-                     for (t, pol, _) in gs) and len(gs) <= 1
+            ok = ctx.only_guarded_by(m, cs[0], ("hasattr(self.array, '{}')".format(name),),
+                                     at_most=1)
         ctx.check(ok, m, 'store forwards {} to the array'.format(name),
                   "array.{0}() when the array has {0}".format(name),
                   'ArrayStore.{0} does not forward to array.{0}()'.format(name), fn=m,
